@@ -61,7 +61,7 @@ inductive KPc
   | idle
   | take (n ver : Nat)
   | doCancel (n i : Nat)    -- `_canceled = true; _promise->resume(_handle)`
-  | finish (n : Nat)
+  | finish (n i : Nat)
   deriving DecidableEq, Repr, Inhabited
 
 structure State where
@@ -136,8 +136,8 @@ def stepCancel (s : State) (c : Nat) : Option (State × Ev) :=
     else some ({ s1 with kpc := upd s1.kpc c .idle, kres := upd s1.kres c false }, .take n ver false)
   | .doCancel n i =>
     let s1 := { s with canceled := upd s.canceled i true }
-    some ({ s1.resume i with kpc := upd s1.kpc c (.finish n) }, .tau)
-  | .finish n => some ({ s.free n with kpc := upd s.kpc c .idle, kres := upd s.kres c true }, .tau)
+    some ({ s1.resume i with kpc := upd s1.kpc c (.finish n i) }, .tau)
+  | .finish n _ => some ({ s.free n with kpc := upd s.kpc c .idle, kres := upd s.kres c true }, .tau)
 
 /-- the awaiter's executor runs the continuation: `await_resume` -/
 def run (s : State) (i : Nat) : Option State :=
